@@ -438,6 +438,7 @@ class Ledger(object):
         rq.closing_at_call = c.closing
         rq.window_at_call = c.window
         rq.timeout_at_call = c.timeout
+        rq.bw_at_call = c.bw
         rq.conn_version = c.version
         apispec.classify(rq, c)
         s = self.session(c.addr)
